@@ -24,6 +24,35 @@ pub open spec fn valid_raw(ctx: &BindgenContext, rf: RawField) -> bool {
 pub open spec fn placed_ok(off: int, w: int, l: Layout) -> bool {
     if w == 0 { off % (8 * l.align) == 0 } else { off % (8 * l.align) + w <= 8 * l.size }
 }
+// the mode in which libclang reports every field offset (plain C structs AND unions)
+pub open spec fn valid_raw_clang(ctx: &BindgenContext, rf: RawField, first: RawField, packed: bool) -> bool {
+    &&& rf.width.is_some() && rf.offset.is_some() && first.offset.is_some()
+    &&& rf.offset.unwrap() >= first.offset.unwrap() && rf.offset.unwrap() < BIG
+    &&& (lay(ctx, rf).is_some() ==> {
+            let l = lay(ctx, rf).unwrap();
+            &&& (l.align == 1 || l.align == 2 || l.align == 4 || l.align == 8 || l.align == 16)
+            &&& l.size <= 16 && rf.width.unwrap() <= 8 * l.size
+            // clang's own offsets obey the ABI rule
+            &&& (!packed && rf.offset.unwrap() != 0 ==> placed_ok(rf.offset.unwrap() as int, rf.width.unwrap() as int, l)) })
+}
+// what every generated accessor needs (bitfield_unit.rs debug_assert!s): the field lies inside the unit,
+// at the position clang gave it relative to the unit's first field -- in ANY order of offsets (unions!)
+pub open spec fn unit_ok_clang(u: BitfieldUnit, raws: Seq<RawField>) -> bool {
+    &&& u.layout.align == 1 && !u.layout.packed
+    &&& u.bitfields@.len() == raws.len()
+    &&& forall|j: int| 0 <= j < raws.len() ==> {
+            let b = #[trigger] u.bitfields@[j];
+            &&& b.raw == raws[j]
+            &&& b.offset_into_unit + raws[j].width.unwrap() <= 8 * u.layout.size
+        }
+}
+pub open spec fn offsets_nondecreasing(raws: Seq<RawField>) -> bool {
+    forall|i: int, j: int| 0 <= i <= j < raws.len() ==> (#[trigger] raws[i]).offset.unwrap() <= (#[trigger] raws[j]).offset.unwrap()
+}
+pub open spec fn ends_nondecreasing(raws: Seq<RawField>) -> bool {
+    forall|i: int, j: int| 0 <= i <= j < raws.len() ==>
+        (#[trigger] raws[i]).offset.unwrap() + raws[i].width.unwrap() <= (#[trigger] raws[j]).offset.unwrap() + raws[j].width.unwrap()
+}
 pub open spec fn unit_ok(ctx: &BindgenContext, u: BitfieldUnit, raws: Seq<RawField>, packed: bool) -> bool {
     &&& u.layout.align == 1 && !u.layout.packed
     &&& u.bitfields@.len() == raws.len()
@@ -114,3 +143,53 @@ UNIT = {
          ]},
     ],
 }
+
+# ---- second and third contract of the same function: the clang-offset mode ----
+# (plain C structs and unions: libclang reports every field offset)
+import copy as _copy
+_main = [i for i in UNIT["items"] if i.get("name") == "bitfields_to_allocation_units"][0]
+
+_REQ = [
+    "*old(bitfield_unit_count) < BIG",
+    "raw_bitfields@.len() < 0x1_0000_0000",
+    "forall|i: int| 0 <= i < raw_bitfields@.len() ==> valid_raw_clang(ctx, #[trigger] raw_bitfields@[i], raw_bitfields@[0], packed)",
+    "offsets_nondecreasing(raw_bitfields@)",
+]
+# property C03, accessor side: every bit-field lies inside the unit it is accessed through
+_ENS = [
+    "r.is_ok() ==> (final(fields).out@ == old(fields).out@) || (final(fields).out@.len() == old(fields).out@.len() + 1 && (match final(fields).out@.last() { Field::Bitfields(u) => unit_ok_clang(u, raw_bitfields@), _ => false }))",
+]
+_INV = [
+    "raws == it.all() && 0 <= it.pos() <= raws.len() && raws.len() < 0x1_0000_0000",
+    "forall|i: int| 0 <= i < raws.len() ==> valid_raw_clang(ctx, #[trigger] raws[i], raws[0], packed)",
+    "offsets_nondecreasing(raws)",
+    "bitfields_in_unit@.len() == it.pos()",
+    "it.pos() == 0 ==> unit_size_in_bits == 0",
+    "it.pos() > 0 ==> start_offset_in_struct <= raws[it.pos() - 1].offset.unwrap()",
+    "it.pos() > 0 ==> unit_size_in_bits == raws[it.pos() - 1].offset.unwrap() - start_offset_in_struct + raws[it.pos() - 1].width.unwrap()",
+    "forall|j: int| 0 <= j < it.pos() ==> lay(ctx, #[trigger] raws[j]).is_some()",
+    "forall|j: int| 0 <= j < it.pos() ==> (#[trigger] bitfields_in_unit@[j]).raw == raws[j]",
+    # the property-derived invariant: the running unit size covers every field placed so far
+    "forall|j: int| 0 <= j < it.pos() ==> (#[trigger] bitfields_in_unit@[j]).offset_into_unit + raws[j].width.unwrap() <= unit_size_in_bits",
+]
+
+
+def _variant(tag, rename, extra_req, witness):
+    v = _copy.deepcopy(_main)
+    v["rename"] = rename
+    v["rename_tag"] = tag
+    v["requires"] = _REQ + extra_req
+    v["ensures"] = list(_ENS)
+    v["loops"] = {0: {"body_start": "let bitfield = it.next_item();", "decreases": "it.all().len() - it.pos()",
+                      "invariant": _INV + (["ends_nondecreasing(raws)"] if not witness else [])}}
+    v["nested"] = _copy.deepcopy(_main["nested"])
+    v["nested"][0]["requires"] = ["*old(bitfield_unit_count) < BIG", "unit_size_in_bits < 4 * BIG"]
+    if witness:
+        v["witness"] = True
+    return v
+
+
+# region where the claim holds on the unchanged tree: every field ends at or after all earlier ones (structs)
+UNIT["items"].append(_variant("@clang_offsets", "bitfields_to_allocation_units__clang", ["ends_nondecreasing(raw_bitfields@)"], False))
+# F7 witness region: some field ends before an earlier one (a union whose later bit-field is narrower)
+UNIT["items"].append(_variant("@clang_offsets_region_F7", "bitfields_to_allocation_units__clang_f7", ["!ends_nondecreasing(raw_bitfields@)"], True))
